@@ -84,6 +84,8 @@ pub struct Ctx {
     pub nontrivial: u64,
     distinct: HashSet<u64>,
     pub distinct_capped: bool,
+    /// cases known to be pairwise distinct by construction (enumerations), counted exactly
+    pub distinct_by_construction: u64,
     counters: HashMap<&'static str, u64>,
     dyn_counters: BTreeMap<String, u64>,
     pub samples: Vec<Value>,
@@ -102,6 +104,7 @@ impl Ctx {
             nontrivial: 0,
             distinct: HashSet::new(),
             distinct_capped: false,
+            distinct_by_construction: 0,
             counters: HashMap::new(),
             dyn_counters: BTreeMap::new(),
             samples: Vec::new(),
@@ -130,6 +133,13 @@ impl Ctx {
         } else {
             self.distinct_capped = true;
         }
+    }
+    /// n non-trivial cases that are pairwise distinct by construction (and distinct from
+    /// everything hashed): counted without going through the hash set
+    #[inline]
+    pub fn nontrivial_enumerated(&mut self, n: u64) {
+        self.nontrivial += n;
+        self.distinct_by_construction += n;
     }
     #[inline]
     pub fn count(&mut self, k: &'static str) {
@@ -190,6 +200,7 @@ impl Ctx {
         self.evaluations += o.evaluations;
         self.nontrivial += o.nontrivial;
         self.distinct_capped |= o.distinct_capped;
+        self.distinct_by_construction += o.distinct_by_construction;
         for h in o.distinct {
             if self.distinct.len() < DISTINCT_CAP * 8 {
                 self.distinct.insert(h);
@@ -231,7 +242,7 @@ impl Ctx {
         }
     }
     pub fn distinct_count(&self) -> u64 {
-        self.distinct.len() as u64
+        self.distinct.len() as u64 + self.distinct_by_construction
     }
     pub fn observations(&self) -> Value {
         let mut m = Map::new();
